@@ -136,8 +136,13 @@ class FakeSock:
         return out
 
 
-def new_ws(sock=None, **kw):
+def new_ws(sock=None, via=None, **kw):
+    """via: None (plain WebSocket), 'dispatcher' / 'ssl-dispatcher': the WebSocket writes through the library's own
+    Dispatcher / SSLDispatcher object, as every WebSocket created by WebSocketApp.run_forever does"""
     from websocket._core import WebSocket
+    if via:
+        import websocket._dispatcher as D
+        kw["dispatcher"] = (D.Dispatcher if via == "dispatcher" else D.SSLDispatcher)(None, None)
     ws = WebSocket(**kw)
     if sock is not None:
         ws.sock = sock
